@@ -30,6 +30,7 @@ import (
 	"strings"
 
 	"golang.org/x/tools/go/ssa"
+	"golang.org/x/tools/go/ssa/ssautil"
 )
 
 func init() { register("C09", checkC09) }
@@ -96,6 +97,41 @@ func reachFrom(e *fxEngine, roots []*ssa.Function, followSDF bool) map[*ssa.Func
 		visit(r)
 	}
 	return seen
+}
+
+func structOf(t types.Type) *types.Struct {
+	for {
+		switch u := t.(type) {
+		case *types.Pointer:
+			t = u.Elem()
+			continue
+		}
+		break
+	}
+	st, _ := t.Underlying().(*types.Struct)
+	return st
+}
+
+func fieldType(st *types.Struct, name string) types.Type {
+	for i := 0; i < st.NumFields(); i++ {
+		if st.Field(i).Name() == name {
+			return st.Field(i).Type()
+		}
+	}
+	return nil
+}
+
+// allLibFuncs: every function of the library packages, package initialisers and closures included.
+func allLibFuncs(ctx *Ctx) []*ssa.Function {
+	var out []*ssa.Function
+	for fn := range ssautil.AllFunctions(ctx.Prog) {
+		if fn.Pkg == nil || len(fn.Blocks) == 0 || !inModule(fn) || strings.Contains(fn.Pkg.Pkg.Path(), "/examples/") {
+			continue
+		}
+		out = append(out, fn)
+	}
+	sort.Slice(out, func(i, j int) bool { return out[i].String() < out[j].String() })
+	return out
 }
 
 var nondetCalls = map[string]string{
@@ -168,6 +204,102 @@ func checkC09(ctx *Ctx, r *Report, tier string) {
 		sort.Strings(gw)
 		r.check("D7", key, fn.Pos(), len(gw) == 0, "package-level memory written during rendering couples concurrent or successive renders: "+strings.Join(gw, "; "))
 	}
+	// D9: a renderer carries configuration, not results. Whatever a Render call leaves behind in
+	// reference-typed state of its receiver (a map, a slice, a pointer: caches, scratch buffers)
+	// is seen by the next Render call on the same value, which then depends on the history of
+	// the renderer and not only on model, renderer settings and resolution. Scalar fields
+	// (warn-once flags, counters) are tolerated: they do not feed the geometry (D9 does not
+	// decide that, it is what the fields are today).
+	nRender := 0
+	var renderMethods []*ssa.Function
+	for _, in := range []string{"Render3", "Render2"} {
+		if iface := lookupIface(ctx, "render", in); iface != nil {
+			for _, t := range implementersOf(ctx, iface) {
+				renderMethods = append(renderMethods, methodOf(ctx, t, "Render"))
+			}
+		}
+	}
+	// the dual-contouring renderers have a Render method of their own shape (channel output)
+	for _, fn := range ctx.srcFuncs("render/dc") {
+		if fn.Name() == "Render" && fn.Signature.Recv() != nil && fn.Parent() == nil {
+			renderMethods = append(renderMethods, fn)
+		}
+	}
+	{
+		for _, fn := range renderMethods {
+			if fn == nil || len(fn.Blocks) == 0 {
+				continue
+			}
+			nRender++
+			st := structOf(fn.Signature.Recv().Type())
+			var bad []string
+			for _, w := range e.summarize(fn).writes {
+				if w.root.kind != "param" || w.root.idx != 0 {
+					continue
+				}
+				if st != nil && w.field != "" {
+					if ft := fieldType(st, w.field); ft != nil {
+						switch ft.Underlying().(type) {
+						case *types.Basic:
+							continue // scalar
+						}
+					}
+				}
+				bad = append(bad, fmt.Sprintf("field %q [%s]", w.field, shortKey(w.why, 120)))
+			}
+			sort.Strings(bad)
+			r.check("D9", shortFn(fn)+"|leaves-no-reference-state-on-the-renderer", fn.Pos(), len(bad) == 0, "receiver state written during Render that outlives the call: "+strings.Join(bad, "; "))
+		}
+	}
+	r.Counts["render_methods"] = nRender
+	r.floor("D9", 7)
+	r.expectControl("D9", "verifCtlStatefulRenderer")
+	// D8: model construction. Shapes built from the same parameters must be the same shape in
+	// every process: the library may draw pseudo-random numbers only from a generator it seeds
+	// with a constant (sdf.sdfRand), never from the process-global source (randomly seeded since
+	// go 1.20) nor from a source seeded at run time.
+	nRand := 0
+	for _, fn := range allLibFuncs(ctx) {
+		var bad []string
+		uses := 0
+		allInstrs(fn, func(b *ssa.BasicBlock, ins ssa.Instruction) {
+			c, ok := ins.(ssa.CallInstruction)
+			if !ok {
+				return
+			}
+			f := c.Common().StaticCallee()
+			if f == nil || f.Pkg == nil {
+				return
+			}
+			pp := f.Pkg.Pkg.Path()
+			if (pp != "math/rand" && pp != "math/rand/v2" && pp != "crypto/rand") || f.Name() == "init" {
+				return
+			}
+			uses++
+			switch {
+			case pp == "crypto/rand":
+				bad = append(bad, fmt.Sprintf("%s at %s", f.String(), ctx.pos(ins.Pos())))
+			case f.Signature.Recv() != nil:
+				// a method of an explicit generator: its seed is checked where it is created
+			case f.Name() == "New" || f.Name() == "NewZipf":
+			case strings.HasPrefix(f.Name(), "NewSource") || f.Name() == "NewPCG" || f.Name() == "NewChaCha8":
+				for _, a := range c.Common().Args {
+					if _, isC := a.(*ssa.Const); !isC {
+						bad = append(bad, fmt.Sprintf("%s seeded with a run-time value at %s", f.Name(), ctx.pos(ins.Pos())))
+					}
+				}
+			default:
+				bad = append(bad, fmt.Sprintf("%s draws from the process-global source at %s", f.String(), ctx.pos(ins.Pos())))
+			}
+		})
+		if uses > 0 {
+			nRand++
+			r.check("D8", shortFn(fn), fn.Pos(), len(bad) == 0, "pseudo-random numbers only from a constant-seeded generator: "+strings.Join(bad, "; "))
+		}
+	}
+	r.Counts["functions_using_rand"] = nRand
+	r.floor("D8", 2)
+	r.expectControl("D8", "VerifCtlJitter")
 	r.floor("D1", 150)
 	r.expectControl("D1", "VerifCtlRangeOverMap")
 	r.expectControl("D2", "VerifCtlJitter")
